@@ -108,6 +108,10 @@ def run_job(job, work, tier, cache_dir, versions):
         cmd += ['--inc', i]
     for g_ in job.get('globals', []):
         cmd += ['--global', g_]
+    for n_ in job.get('render_ns', []):
+        cmd += ['--render-ns', n_]
+    if job.get('globals_src'):
+        cmd += ['--global-src', job['globals_src']]
     for s_ in job.get('structs', JOBS.DEFAULT_STRUCTS):
         cmd += ['--struct', s_]
     rc, out, err, secs = sh(cmd, timeout=300)
@@ -434,8 +438,9 @@ def main():
             if not ev['coverage']['explanation'].strip():
                 ev['coverage']['explanation'] = ('bounded contract checking: every obligation of this property that was decided (%d of %d, see coverage.bounded) was decided '
                                                  'by CBMC under a stated bound on a container or loop; none is counted as proved' % (b_ok, b_total))
-        os.makedirs(os.path.join(VERIF, 'evidence'), exist_ok=True)
-        json.dump(ev, open(os.path.join(VERIF, 'evidence', prop + '.json'), 'w'), indent=1)
+        if not os.environ.get('VERIF_SCRATCH'):   # experiments (tools/try_builtins.sh) leave the evidence files alone
+            os.makedirs(os.path.join(VERIF, 'evidence'), exist_ok=True)
+            json.dump(ev, open(os.path.join(VERIF, 'evidence', prop + '.json'), 'w'), indent=1)
         print('%s: %d functions under contract, %d/%d obligations discharged (+%d/%d bounded), %d known findings, %d violations, %d inconclusive, %.1fs'
               % (prop, len(fuc), discharged, total, b_ok, b_total, len(seen), len(violations), len(inconcl), wall))
         if violations:
